@@ -560,4 +560,20 @@ def suffixPtr : List OutChar := [.us, .lower 15, .lower 19, .lower 17]     -- "_
 /-- class generated for an enumeration type `t`: `Sdai<T>_var` -/
 def enumClassName (t : Ident) : List OutChar := className t ++ suffixVar
 
+/-- class generated for a select type (`SelectName`): the same rule as `ClassName`; its aggregate class appends `_agg` -/
+def selectClassName (t : Ident) : List OutChar := className t
+def selectAggClassName (t : Ident) : List OutChar := className t ++ suffixAgg
+
+def dirEntity : List OutChar := [.lower 4, .lower 13, .lower 19, .lower 8, .lower 19, .lower 24, .slash]   -- "entity/"
+def dirType : List OutChar := [.lower 19, .lower 24, .lower 15, .lower 4, .slash]                           -- "type/"
+def extH : List OutChar := [.dot, .lower 7]                                                                 -- ".h"
+def extCc : List OutChar := [.dot, .lower 2, .lower 2]                                                      -- ".cc"
+
+/-- `getEntityFilenames`: entity/<ClassName>.h, entity/<ClassName>.cc -/
+def entityHeader (e : Ident) : List OutChar := dirEntity ++ className e ++ extH
+def entityImpl (e : Ident) : List OutChar := dirEntity ++ className e ++ extCc
+/-- `getTypeFilenames` (`TYPEget_ctype`): type/Sdai<T>_var.h for an enumeration, type/Sdai<T>.h for a select -/
+def enumHeader (t : Ident) : List OutChar := dirType ++ enumClassName t ++ extH
+def selectHeader (t : Ident) : List OutChar := dirType ++ selectClassName t ++ extH
+
 end StepModel.GenCxx
